@@ -25,7 +25,7 @@ coq_makefile -f _CoqProject -o Makefile > /dev/null
 # 3. make (16 cores), under a shell timeout
 #    -k: a broken proof in one file must not hide the state of the others; each check then
 #    re-compiles its own Properties/<id>.v, which fails iff something in ITS dependency cone is broken.
-timeout 3000 make -k -j16 > "$ROOT/build/make.log" 2>&1 || { grep -E "^File|Error" "$ROOT/build/make.log" | head -20 >&2; echo "BUILD: some files failed (see build/make.log)" >&2; }
+timeout 3000 make -k -j16 COQC="timeout 1200 coqc" > "$ROOT/build/make.log" 2>&1 || { grep -E "^File|Error" "$ROOT/build/make.log" | head -20 >&2; echo "BUILD: some files failed (see build/make.log)" >&2; }
 [ -f theories/Extract/Extract.vo ] || { echo "BUILD: the executable model itself does not build" >&2; exit 3; }
 # 4. extracted model binary
 if [ ! -x "$ROOT/build/model.exe" ] || [ model.ml -nt "$ROOT/build/model.exe" ] || [ driver.ml -nt "$ROOT/build/model.exe" ]; then
